@@ -22,6 +22,7 @@ func init() {
 			{ID: "C09.2", Desc: "agreements: keyer, normaliser, heuristic table, codec", Run: ruleC09_2, MinSites: 4},
 			{ID: "C09.3", Desc: "file name is a pure function of the key", Run: ruleC09_3, MinSites: 1},
 			{ID: "C09.4", Desc: "the id looked up is the id stored", Run: ruleC09_4, MinSites: 2},
+			{ID: "C09.5", Desc: "synthesised Date is valid UTC (a wrong Date makes fresh entries look stale)", Run: func(c *Ctx) { ruleDateRepair(c, "C09.5") }, MinSites: 1},
 		},
 	})
 }
@@ -193,6 +194,7 @@ func evalCmp(k int64, a *Atom) bool {
 func ruleC09_2(c *Ctx) {
 	ruleOneKeyer(c, "C09.2")
 	ruleOneNormaliser(c, "C09.2")
+	ruleRLIST(c, "C09.2", "<nominated>")
 	// heuristic table agreement is C06.4's; restated here as a structural fact
 	if heur, cs, ff := c.A.F("heurStatus"), c.A.F("canStore"), c.A.F("freshness"); heur != nil && cs != nil && ff != nil {
 		uses := func(fn *ssa.Function) bool {
